@@ -300,6 +300,16 @@ func (o *oracles) afterAPI(op Op, r OpResult) {
 		op Op
 		r  OpResult
 	}{op, r}
+	if op.K == "UpdName" && r.Err == "" && op.NewName != "" {
+		// a stale bit keeps its cause when the tag is renamed
+		oldP, newP := "tag/"+op.Name+"/", "tag/"+op.NewName+"/"
+		for k, v := range o.firstSeen {
+			if strings.HasPrefix(k, oldP) {
+				o.firstSeen[newP+strings.TrimPrefix(k, oldP)] = v
+				delete(o.firstSeen, k)
+			}
+		}
+	}
 	switch op.K {
 	case "ResetConv", "DelTag", "SetConv":
 		// may reset a converter cache (detaching the last tag resets it)
